@@ -29,6 +29,16 @@ func c01(p *core.Prog, r *core.Report) {
 	c01Reader(p, r)
 	r.Rule("C01-R8", "E6 provenance/guards", 3, "io contracts at the argument seam: Write reports the total, Read the bytes copied; EnsureEmpty reports trailing bytes whatever error accompanies them")
 	c01IO(p, r)
+	// the arguments only arrive if every fragment's checksum is the checksum
+	// of its own bytes: pooled checksum objects are not read after release and
+	// relays re-stamp what they rewrite (shared with C02-R4 / C02-R6)
+	r.Rule("C01-R9", "E6 who-may-call + ordering", 6, "fragments carry the checksum of their own bytes (shared with C02)")
+	r.Alias("C02-R4", "C01-R9")
+	r.Alias("C02-R6", "C01-R9")
+	c02Pool(p, r)
+	c02Relay(p, r)
+	r.Alias("C02-R4", "")
+	r.Alias("C02-R6", "")
 }
 
 func isErrGuarded(b *ssa.BasicBlock) bool {
